@@ -133,3 +133,36 @@ def run(ctx, names=None, per_pattern=None):
     ctx.extra['regex_correspondence'] = {'pairs': len(lines), 'with_match': nmatch}
     if lines:
         ctx.sample({'op': lines[len(lines) // 3], 'implementation': impl[len(lines) // 3]})
+
+
+def run_captures(ctx, per_pattern=None):
+    """capture correspondence: for every translated pattern with named groups, the span of each named group of
+    every `finditer` match (regex module) against `RTV.Re.findAllCap` (Lean, one group at a time)."""
+    ok, raw, bad = T.translated()
+    n = per_pattern or (2500 if ctx.thorough else 600)
+    lines, impl, meta = [], [], []
+    for name, ast, pat, flags, origin in ok:
+        groups = T.GROUPS.get(name) or {}
+        if not groups:
+            continue
+        rx = regex.compile(pat, flags)
+        r = ctx.rng('recorr-cap', name)
+        for s in strings_for(ast, r, n):
+            ms = list(rx.finditer(s))
+            for gname, gnum in sorted(groups.items()):
+                lines.append('re.findcap\t%s\t%d\treal\t%s' % (name, gnum, cps(s)))
+                impl.append(';'.join('%d:%d:%s' % (m.start(), m.end(), ('%d:%d' % m.span(gname)) if m.span(gname) != (-1, -1)
+                                                     else '-:-') for m in ms))
+                meta.append((name, gname, pat, s, bool(ms)))
+    if not lines:
+        return
+    model = common.driver(lines)
+    ctx.count('regex-capture-correspondence', len(lines))
+    for (name, gname, pat, s, hit), a, b in zip(meta, impl, model):
+        if hit:
+            ctx.nontriv(('recap', name, gname, s))
+        if a != b:
+            ctx.report('correspondence', 'regex-capture-' + name,
+                       'finditer(%s, %r) group %s: regex module %s, Lean findAllCap %s' % (name, s, gname, a, b),
+                       failing_input={'op': 're.findcap', 'pattern_name': name, 'group': gname, 'pattern': pat, 'string': s,
+                                      'implementation': a, 'model': b})
